@@ -100,7 +100,7 @@ func init() {
 		plain:       always,
 		shrinkTime:  90 * time.Second,
 		search: func(s *propSpec, b *build, a *agg) {
-			runs := int64(20000)
+			runs := int64(200000)
 			if tier == "thorough" {
 				runs = 40000000
 			}
